@@ -216,7 +216,7 @@ def run(ck):
                       "(plain, Fortran, non-contiguous view, read-only, singleton axes, empty leading axis, extreme values with NaN/inf) "
                       "x repetitions with fresh random integer-valued data; a case = one call; non-trivial = returned normally; "
                       "distinct by (routine, variant, repetition)")
-    ck.coq_build()
+    ck.coq_build(extra_dirs=["C02", "C01", "C09", "C12", "C13", "C16", "C17"])
     ck.overlay()
     purity(ck)
     if ck.thorough():
